@@ -18,6 +18,7 @@ import (
 	"verifharness/internal/fakemysql"
 	"verifharness/internal/pbt"
 	"verifharness/internal/proxyfix"
+	"verifharness/internal/rawclient"
 	"verifharness/internal/routefix"
 )
 
@@ -45,6 +46,7 @@ const (
 	opRollback
 	opAutocommit0
 	opAutocommit1
+	opMulti // 2-3 statements in one COM_QUERY packet (CLIENT_MULTI_STATEMENTS + support_multi_query)
 )
 
 type stmt struct {
@@ -61,8 +63,9 @@ type stmt struct {
 }
 
 type step struct {
-	Op   int  `json:"op"`
-	Stmt stmt `json:"stmt"`
+	Op     int    `json:"op"`
+	Stmt   stmt   `json:"stmt"`
+	Pieces []stmt `json:"pieces,omitempty"` // opMulti
 }
 
 type c22Case struct {
@@ -108,10 +111,22 @@ func genCase(t *rapid.T) c22Case {
 	n := rapid.IntRange(1, 6).Draw(t, "n")
 	for i := 0; i < n; i++ {
 		op := rapid.SampledFrom([]int{opStmt, opStmt, opStmt, opStmt, opStmt, opStmt, opStmt, opStmt, opStmt, opStmt, opStmt, opStmt,
+			opMulti, opMulti, opMulti, opMulti,
 			opBegin, opStartTx, opCommit, opRollback, opAutocommit0, opAutocommit1}).Draw(t, "op")
 		st := step{Op: op}
 		if op == opStmt {
 			st.Stmt = genStmt(t)
+		}
+		if op == opMulti {
+			// the interesting packets start with a plain read that may go to a replica
+			first := genStmt(t)
+			if rapid.IntRange(0, 3).Draw(t, "plainfirst") != 0 {
+				first.Class = rapid.SampledFrom([]int{clPlainSelect, clPlainSelect, clPlainShow}).Draw(t, "firstclass")
+			}
+			st.Pieces = []stmt{first}
+			for k := rapid.IntRange(1, 2).Draw(t, "more"); k > 0; k-- {
+				st.Pieces = append(st.Pieces, genStmt(t))
+			}
 		}
 		c.Steps = append(c.Steps, st)
 	}
@@ -232,6 +247,21 @@ func (s stmt) render(i int) string {
 	return leads[s.Lead%len(leads)] + body + trails[s.Trail%len(trails)]
 }
 
+// renderPiece is render for a piece of a multi-statement packet: a trailing line comment
+// gets its newline (otherwise it would swallow the separator and the next piece) and a
+// trailing semicolon is left to the packet's own separators.
+func (s stmt) renderPiece(i int) string {
+	t := s.Trail % len(trails)
+	if t == 5 {
+		s.Trail = 0
+	}
+	text := s.render(i)
+	if t == 3 || t == 8 {
+		text += "\n"
+	}
+	return text
+}
+
 func opText(op int) string {
 	switch op {
 	case opBegin:
@@ -264,14 +294,23 @@ func checkCase(c c22Case) (o pbt.Outcome) {
 	specs := []proxyfix.SliceSpec{{Name: "slice-0", Replicas: 1}}
 	users := []routefix.User{{Key: "rwsplit", RWFlag: models.ReadWrite, RWSplit: models.ReadWriteSplit}, {Key: "rwplain", RWFlag: models.ReadWrite},
 		{Key: "rosplit", RWFlag: models.ReadOnly, RWSplit: models.ReadWriteSplit}, {Key: "roplain", RWFlag: models.ReadOnly}}
-	env, err := routefix.Setup("c22n", specs, users, func(ns *models.Namespace) { ns.CheckSelectLock = c.CheckSelectLock })
+	env, err := routefix.Setup("c22n", specs, users, func(ns *models.Namespace) {
+		ns.CheckSelectLock = c.CheckSelectLock
+		ns.SupportMultiQuery = true
+	})
 	if err != nil {
 		o.Skip = "fixture: " + err.Error()
 		return
 	}
 	defer env.Close()
 	u := c.User % 4
-	cl, err := env.Dial(userName(u), "db", 0)
+	var caps uint32
+	for _, st := range c.Steps {
+		if st.Op == opMulti {
+			caps = rawclient.ClientMultiStatements
+		}
+	}
+	cl, err := env.Dial(userName(u), "db", caps)
 	if err != nil {
 		o.Skip = "dial: " + err.Error()
 		return
@@ -306,8 +345,75 @@ func checkCase(c c22Case) (o pbt.Outcome) {
 
 	explicitTx, autocommit := false, true
 	var violation, known, knownWhat string
+	// judge applies the oracle to one statement that the client saw succeed; evs are the
+	// query events logged by the backends while it (or the packet it was part of) ran.
+	judge := func(i int, how string, s stmt, text string, evs []fakemysql.Event, inTx bool) {
+		cls := classNames[s.Class]
+		fwd := strings.TrimSpace(strings.TrimRight(strings.TrimSpace(text), ";"))
+		var hits []fakemysql.Event
+		for _, e := range evs {
+			if strings.TrimSpace(e.SQL) == fwd {
+				hits = append(hits, e)
+			}
+		}
+		if len(hits) == 0 {
+			o.Labels = append(o.Labels, how+"unobserved_"+cls)
+			return
+		}
+		onReplica := false
+		for _, e := range hits {
+			if e.Role != "master" {
+				onReplica = true
+			}
+		}
+		role := "master"
+		if onReplica {
+			role = "replica"
+		}
+		txl := "notx"
+		if inTx {
+			txl = "tx"
+		}
+		o.Labels = append(o.Labels, fmt.Sprintf("%s%s_%s_%s", how, cls, txl, role))
+		if userRO(u) {
+			// read-only users are kept off the master by design; the property's must-be-master
+			// list is about users whose reads are split. Nothing is demanded; the role is only recorded.
+			return
+		}
+		plain := s.Class == clPlainSelect || s.Class == clPlainShow || (s.Class == clLocking && !lockDetection)
+		mustMaster := inTx || !userSplit(u) || !plain
+		decorated := leadIsComment(s.Lead) || trailIsComment(s.Trail) || s.Sep != 0 || s.KwCase != 0 || s.Lead == 3 || (s.Trail >= 4 && s.Trail <= 6) || how != ""
+		if mustMaster && decorated && !plain {
+			o.NonTrivial = true
+		}
+		if !mustMaster || !onReplica {
+			return
+		}
+		why := "it is a " + strings.ReplaceAll(cls, "_", " ")
+		if inTx {
+			why = "the session is inside a transaction"
+		} else if !userSplit(u) {
+			why = "the user has no read/write splitting"
+		}
+		where := ""
+		if how != "" {
+			where = " (" + strings.TrimSuffix(how, "_") + " of a multi-statement packet)"
+		}
+		detail := fmt.Sprintf("user %s, step %d%s: %q must run on the master (%s) but %s", userName(u), i, where, text, why, routefix.Describe(hits))
+		id := classify(u, inTx, s)
+		if id == "" {
+			if violation == "" {
+				violation = detail
+			}
+			return
+		}
+		o.Labels = append(o.Labels, "known_"+id)
+		if known == "" {
+			known, knownWhat = id, detail
+		}
+	}
 	for i, st := range c.Steps {
-		if st.Op != opStmt {
+		if st.Op != opStmt && st.Op != opMulti {
 			r, err := cl.Exec(opText(st.Op))
 			if err != nil {
 				o.Skip = "session broke on " + opText(st.Op) + ": " + err.Error()
@@ -330,13 +436,46 @@ func checkCase(c c22Case) (o pbt.Outcome) {
 			window()
 			continue
 		}
+		inTx := explicitTx || !autocommit
+		if st.Op == opMulti {
+			// every piece is routed by its own class, whatever ran before it in the same packet
+			var texts []string
+			var sent []int
+			for j, ps := range st.Pieces {
+				ps.Class %= nClasses
+				if userRO(u) && ps.Class == clWrite {
+					continue
+				}
+				texts = append(texts, ps.renderPiece(i*10+j+100))
+				sent = append(sent, j)
+			}
+			if len(texts) == 0 {
+				continue
+			}
+			window()
+			rs, err := cl.Query(strings.Join(texts, ";"))
+			if err != nil {
+				o.Skip = fmt.Sprintf("session broke on multi-statement %q: %v", strings.Join(texts, ";"), err)
+				return
+			}
+			evs := window()
+			for k, j := range sent {
+				ps := st.Pieces[j]
+				ps.Class %= nClasses
+				if k >= len(rs) || rs[k].Err != nil {
+					o.Labels = append(o.Labels, "multi_piece_not_run_"+classNames[ps.Class])
+					break
+				}
+				judge(i, fmt.Sprintf("multi_piece%d_", k), ps, texts[k], evs, inTx)
+			}
+			continue
+		}
 		s := st.Stmt
 		s.Class %= nClasses
 		if userRO(u) && s.Class == clWrite {
 			o.Labels = append(o.Labels, "ro_write_not_sent")
 			continue
 		}
-		inTx := explicitTx || !autocommit
 		text := s.render(i)
 		window() // drop anything that arrived in between (health checks)
 		r, err := cl.Exec(text)
@@ -344,70 +483,12 @@ func checkCase(c c22Case) (o pbt.Outcome) {
 			o.Skip = fmt.Sprintf("session broke on %q: %v", text, err)
 			return
 		}
-		cls := classNames[s.Class]
 		if r.Err != nil {
 			// a rejection is not a routing violation
-			o.Labels = append(o.Labels, "rejected_"+cls)
+			o.Labels = append(o.Labels, "rejected_"+classNames[s.Class])
 			continue
 		}
-		fwd := strings.TrimRight(text, ";")
-		var hits []fakemysql.Event
-		for _, e := range window() {
-			if e.SQL == fwd || strings.TrimSpace(e.SQL) == strings.TrimSpace(fwd) {
-				hits = append(hits, e)
-			}
-		}
-		if len(hits) == 0 {
-			o.Labels = append(o.Labels, "unobserved_"+cls)
-			continue
-		}
-		onReplica := false
-		for _, e := range hits {
-			if e.Role != "master" {
-				onReplica = true
-			}
-		}
-		role := "master"
-		if onReplica {
-			role = "replica"
-		}
-		txl := "notx"
-		if inTx {
-			txl = "tx"
-		}
-		o.Labels = append(o.Labels, fmt.Sprintf("%s_%s_%s", cls, txl, role))
-		if userRO(u) {
-			// read-only users are kept off the master by design; the property's must-be-master
-			// list is about users whose reads are split. Nothing is demanded; the role is only recorded.
-			continue
-		}
-		plain := s.Class == clPlainSelect || s.Class == clPlainShow || (s.Class == clLocking && !lockDetection)
-		mustMaster := inTx || !userSplit(u) || !plain
-		decorated := leadIsComment(s.Lead) || trailIsComment(s.Trail) || s.Sep != 0 || s.KwCase != 0 || s.Lead == 3 || (s.Trail >= 4 && s.Trail <= 6)
-		if mustMaster && decorated && !plain {
-			o.NonTrivial = true
-		}
-		if !mustMaster || !onReplica {
-			continue
-		}
-		why := "it is a " + strings.ReplaceAll(cls, "_", " ")
-		if inTx {
-			why = "the session is inside a transaction"
-		} else if !userSplit(u) {
-			why = "the user has no read/write splitting"
-		}
-		detail := fmt.Sprintf("user %s, step %d: %q must run on the master (%s) but %s", userName(u), i, text, why, routefix.Describe(hits))
-		id := classify(u, inTx, s)
-		if id == "" {
-			if violation == "" {
-				violation = detail
-			}
-			continue
-		}
-		o.Labels = append(o.Labels, "known_"+id)
-		if known == "" {
-			known, knownWhat = id, detail
-		}
+		judge(i, "", s, text, window(), inTx)
 	}
 	switch {
 	case violation != "":
@@ -454,6 +535,6 @@ func classify(u int, inTx bool, s stmt) string {
 
 func TestC22Routing(t *testing.T) {
 	pbt.Run(t, pbt.Spec{ID: "C22", Sub: "routing", Quick: 700, Thorough: 3000,
-		Rule: "sessions of 1-6 steps (statement / begin / start transaction / commit / rollback / set autocommit) for a user that is rw+split (2/3 of cases), rw without splitting, ro+split or ro; statements drawn from plain select/show, writes, locking reads (FOR UPDATE, FOR SHARE, LOCK IN SHARE MODE, NOWAIT, SKIP LOCKED), /*master*/ hints at the three supported positions, read_only probes; keyword case, word separators (space, tab, newline, CRLF), leading and trailing comments (block, trace, --, #), trailing semicolon; check_select_lock configured on and off. non-trivial = a rw user's must-be-master statement of a non-plain class with a comment, unusual spacing or letter case was observed at a backend",
+		Rule: "sessions of 1-6 steps (statement / begin / start transaction / commit / rollback / set autocommit) for a user that is rw+split (2/3 of cases), rw without splitting, ro+split or ro; statements drawn from plain select/show, writes, locking reads (FOR UPDATE, FOR SHARE, LOCK IN SHARE MODE, NOWAIT, SKIP LOCKED), /*master*/ hints at the three supported positions, read_only probes; keyword case, word separators (space, tab, newline, CRLF), leading and trailing comments (block, trace, --, #), trailing semicolon; a step may also be a multi-statement packet of 2-3 such statements (usually starting with a plain read), each piece judged by its own class; check_select_lock configured on and off. non-trivial = a rw user's must-be-master statement of a non-plain class with a comment, unusual spacing or letter case was observed at a backend",
 		Floor: 0.4}, genCase, checkCase)
 }
